@@ -7,15 +7,15 @@ pub fn gen_model(fam: &str, seed: u64, maxn: usize, tiny: bool) -> Model {
     let mut r = StdRng::seed_from_u64(seed ^ 0x9e3779b97f4a7c15);
     let pick = match fam {
         "mixed" => ["lifted", "lifted", "lifted_nodepth", "longarc", "knapsack", "setpack", "setpack_longarc", "lifted"][r.gen_range(0..8)],
-        "allimpacted" => ["lifted", "lifted", "lifted_nodepth", "knapsack", "setpack", "lifted", "lifted_pot", "knapsack_pot"][r.gen_range(0..8)],
+        "allimpacted" => ["lifted", "lifted", "lifted_nodepth", "knapsack", "setpack", "lifted_wide", "lifted_pot", "knapsack_pot", "lifted_wide", "lifted_wide_pot"][r.gen_range(0..10)],
         // deferred rewards: non-identity relax(), arc costs shifted by potentials
-        "potential" => ["lifted_pot", "lifted_pot", "knapsack_pot"][r.gen_range(0..3)],
+        "potential" => ["lifted_pot", "lifted_wide_pot", "knapsack_pot"][r.gen_range(0..3)],
         "longarcs" => ["longarc", "longarc", "setpack_longarc"][r.gen_range(0..3)],
         // heavy state re-convergence: few base states per layer / few distinct weights, many paths
         "reconv" => ["knapsack_eq", "knapsack_eq", "lifted_narrow", "lifted_narrow_nodepth"][r.gen_range(0..4)],
         f => f,
     };
-    let rub = [RubMode::None, RubMode::None, RubMode::Exact, RubMode::Slack][r.gen_range(0..4)];
+    let rub = [RubMode::None, RubMode::None, RubMode::Exact, RubMode::Slack, RubMode::Noisy, RubMode::Noisy][r.gen_range(0..6)];
     let dom = [DomMode::None, DomMode::Exact, DomMode::None, DomMode::Keyed][r.gen_range(0..4)];
     let n = if tiny { maxn - r.gen_range(0..3).min(maxn - 2) } else { maxn };
     let b = r.gen_range(3..=5);
@@ -25,6 +25,9 @@ pub fn gen_model(fam: &str, seed: u64, maxn: usize, tiny: bool) -> Model {
         "lifted_nodepth" => Model::random_lifted(seed, n, b, mm, false, false, RubMode::None, dom),
         "longarc" => Model::random_lifted(seed, n, b, mm, false, true, RubMode::None, dom),
         "knapsack" => Model::random_knapsack(seed, n, rub, dom),
+        // wide layers: 7 base states, 4-5 decisions, (mostly) singleton root -- exact layers up to 7 states wide
+        "lifted_wide" => Model::random_lifted(seed, n, 7, 4 + (seed % 2) as usize, true, false, rub, dom),
+        "lifted_wide_pot" => Model::random_lifted(seed, n, 7, 4 + (seed % 2) as usize, true, false, rub, DomMode::None).with_potentials(seed),
         "lifted_pot" => Model::random_lifted(seed, n, b, mm, true, false, rub, DomMode::None).with_potentials(seed),
         "knapsack_pot" => Model::random_knapsack(seed, n, rub, DomMode::None).with_potentials(seed),
         "knapsack_eq" => Model::random_knapsack_eq(seed, n, rub, dom),
